@@ -1,18 +1,4 @@
-mod checks;
-mod cmp;
-mod dec;
-mod fegen;
-mod gast;
-mod irgen;
-mod ggen;
-mod model;
-mod pipeline;
-mod probe;
-mod rgen;
-mod runner;
-mod store;
-mod tape;
-mod util;
+use tx3v::{checks, cmp, gast, ggen, probe, runner, tape, util};
 
 use runner::Tier;
 
@@ -46,6 +32,18 @@ fn main() {
             std::process::exit(report.finish());
         }
         "probe" => probe::run(&args[2]),
+        "fuzz-replay" => {
+            // tx3v fuzz-replay <target> <file>: strict re-execution of an input saved by libFuzzer
+            let data = std::fs::read(&args[3]).expect("input file");
+            match tx3v::fuzzing::run(&args[2], &data, true) {
+                Ok(()) => println!("fuzz-replay {}: input passes", args[2]),
+                Err(e) => {
+                    println!("  detail: {}", util::trunc(&e, 1200));
+                    println!("VIOLATION property={} replay={}", tx3v::fuzzing::property_of(&args[2]), args[3]);
+                    std::process::exit(1);
+                }
+            }
+        }
         "child" => {
             let stack_kb: usize = args.get(4).and_then(|s| s.parse().ok()).unwrap_or(8192);
             let f: fn(&[u8]) -> String = match args[2].as_str() {
